@@ -164,6 +164,10 @@ def rad50(state, string: str) -> bytes:
             string = get_as_str(state, "'.rad50' operand", state["insn"], chunk)
             for char in string:
                 try:
+                    # Only ASCII letters are folded: 'ı'.upper() is 'I' and
+                    # 'ﬆ'.upper() is 'ST', but neither is a radix-50 character
+                    if not char.isascii():
+                        raise ValueError(char)
                     val = radix50.TABLE.index(char.upper())
                 except ValueError:
                     reports.error(
